@@ -581,3 +581,24 @@ Proof.
   - unfold gauss_w, thick_prop, nprod, two, dot, nsum. cbn. rnum. field.
   - intros n _. unfold gauss_pos; cbn [map seq]. apply grad_lin3; assumption.
 Qed.
+
+(* ---- mass / Poisson element matrices, 2-D and 3-D: symmetric and PSD ---- *)
+Lemma mass_elem_sym (s3 : R) d h mp ndof : (d = 2 \/ d = 3)%nat -> msym (mass_element s3 d h mp ndof).
+Proof. intros [-> | ->]; apply mass_sym; reflexivity. Qed.
+
+Lemma poisson_elem_sym (s3 : R) d h mp : (d = 2 \/ d = 3)%nat -> msym (poisson_element s3 d h mp).
+Proof. intros [-> | ->]; apply poisson_sym; reflexivity. Qed.
+
+Lemma mass_elem_psd (s3 : R) d hx hy hz mp ndof v : (d = 2 \/ d = 3)%nat ->
+  0 <= hx -> 0 <= hy -> 0 <= hz -> 0 <= mp -> 0 <= quad (mass_element s3 d [hx; hy; hz] mp ndof) v.
+Proof.
+  intros [-> | ->] Hx Hy Hz Hm; apply mass_psd; try reflexivity;
+    [apply gauss_coef2_nonneg | apply gauss_coef3_nonneg]; assumption.
+Qed.
+
+Lemma poisson_elem_psd (s3 : R) d hx hy hz mp v : (d = 2 \/ d = 3)%nat ->
+  0 <= hx -> 0 <= hy -> 0 <= hz -> 0 <= mp -> 0 <= quad (poisson_element s3 d [hx; hy; hz] mp) v.
+Proof.
+  intros [-> | ->] Hx Hy Hz Hm; apply poisson_psd; try reflexivity;
+    [apply gauss_coef2_nonneg | apply gauss_coef3_nonneg]; assumption.
+Qed.
